@@ -51,7 +51,7 @@ Lemma tx_data_descr st id :
   l_n1 st' = S (l_n1 st) /\
   (if droppedD (l_n1 st) then l_agenda st' = l_agenda st /\ l_wd st' = l_wd st
    else AddsT (l_agenda st) (l_agenda st') [(nq (l_now st), AWirePutCb false)] /\
-        l_wd st' = mkwd (wd_items (l_wd st) ++ [id]) (wd_waiting (l_wd st))) /\
+        l_wd st' = wd_app (l_wd st) [id] (l_now st)) /\
   ((0 <= l_now st)%Q -> pkt_ok (l_now st) (l_pkt st) -> pkt_ok (l_now st) (l_pkt st')) /\
   (forall j, pkt_get j (l_pkt st) <> None -> pkt_get j (l_pkt st') <> None) /\ pkt_get id (l_pkt st') <> None.
 Proof.
@@ -86,13 +86,13 @@ Proof. intros [] []. constructor; congruence. Qed.
 Lemma do_outs_descr : forall o st nw kp k, oeff (l_now st) (l_n1 st) o = (nw, kp, k) ->
   let st' := do_outs lc st o in
   frame st st' /\ AddsT (l_agenda st) (l_agenda st') nw /\
-  l_wd st' = mkwd (wd_items (l_wd st) ++ kp) (wd_waiting (l_wd st)) /\ l_n1 st' = (l_n1 st + k)%nat /\
+  l_wd st' = wd_app (l_wd st) kp (l_now st) /\ l_n1 st' = (l_n1 st + k)%nat /\
   ((0 <= l_now st)%Q -> pkt_ok (l_now st) (l_pkt st) -> pkt_ok (l_now st) (l_pkt st')) /\
   (forall j, pkt_get j (l_pkt st) <> None -> pkt_get j (l_pkt st') <> None) /\
   (forall j, In j kp -> pkt_get j (l_pkt st') <> None).
 Proof.
   induction o as [|x o IH]; intros st nw kp k; cbn [do_outs oeff].
-  - intros E; injection E as <- <- <-. rewrite app_nil_r, Nat.add_0_r.
+  - intros E; injection E as <- <- <-. unfold wd_app. cbn [map]. rewrite !app_nil_r, Nat.add_0_r.
     split; [apply frame_refl|]. split; [constructor|]. split; [destruct (l_wd st); reflexivity|]. split; [reflexivity|]. split; [auto|]. split; [auto|]. intros j [].
   - destruct x as [id z|id r|id|id r].
     + destruct (oeff (l_now st) (S (l_n1 st)) o) as [[nw1 kp1] k1] eqn:E1.
@@ -103,7 +103,7 @@ Proof.
       destruct (droppedD (l_n1 st)); intros E; injection E as <- <- <-.
       * destruct T10 as [Ta Tw]. rewrite Ta, Tw in *. split; [eapply frame_trans; eauto|]. split; [exact A|]. split; [exact W|].
         split; [lia|]. split; [auto|]. split; [auto|exact KI].
-      * destruct T10 as [Ta Tw]. rewrite Tw in W. cbn [wd_items wd_waiting] in W. rewrite <- app_assoc in W.
+      * destruct T10 as [Ta Tw]. rewrite Tw in W. unfold wd_app in *. cbn [wd_items wd_stamps wd_entered wd_waiting map] in W. rewrite <- !app_assoc in W. cbn [app map] in W |- *.
         split; [eapply frame_trans; eauto|]. split; [eapply AddsT_cons_front; eauto|]. split; [exact W|].
         split; [lia|]. split; [auto|]. split; [auto|]. intros j [<-|Hj]; [apply K; exact T13|apply KI; exact Hj].
     + destruct (oeff (l_now st) (l_n1 st) o) as [[nw1 kp1] k1] eqn:E1. intros E; injection E as <- <- <-.
@@ -123,7 +123,7 @@ Lemma sender_event_descr st e st' s' o nw kp k :
   l_n2 st' = l_n2 st /\ l_oracle st' = l_oracle st /\ l_d2 st' = l_d2 st /\
   l_slog st' = mkslog (l_now st) e (txs o) (norm_sender s') :: l_slog st /\
   AddsT (l_agenda st) (l_agenda st') (nw ++ extra_news (l_now st) (l_snd st) s' e) /\
-  l_wd st' = mkwd (wd_items (l_wd st) ++ kp) (wd_waiting (l_wd st)) /\ l_n1 st' = (l_n1 st + k)%nat /\
+  l_wd st' = wd_app (l_wd st) kp (l_now st) /\ l_n1 st' = (l_n1 st + k)%nat /\
   ((0 <= l_now st)%Q -> pkt_ok (l_now st) (l_pkt st) -> pkt_ok (l_now st) (l_pkt st')) /\
   (forall j, pkt_get j (l_pkt st) <> None -> pkt_get j (l_pkt st') <> None) /\
   (forall j, In j kp -> pkt_get j (l_pkt st') <> None).
@@ -152,7 +152,9 @@ End Descr.
 
 (* ---- the wires' get() ---- *)
 Definition getD_eff (now : Q) (w : wireD) : list (Q * aev) * wireD :=
-  match wd_items w with x :: r => ([(nq now, AWireGetD x)], mkwd r false) | [] => ([], mkwd [] true) end.
+  match wd_items w with
+  | x :: r => ([(nq now, AWireGetD x)], mkwd r (tl (wd_stamps w)) (hd 0%Q (wd_stamps w)) false)
+  | [] => ([], mkwd [] (wd_stamps w) (wd_entered w) true) end.
 Definition getA_eff (now : Q) (w : wireA) : list (Q * aev) * wireA :=
   match wa_items w with
   | x :: r => ([(nq now, AWireGetA (a_no x) (a_pid x) (a_time x) (a_ct x))], mkwa r false)
@@ -178,7 +180,7 @@ Lemma wd_get_descr st :
 Proof.
   unfold wd_get, getD_eff. destruct (wd_items (l_wd st)) as [|x r]; cbn [fst snd].
   - split; [constructor; reflexivity|]. split; [reflexivity|]. split; [constructor|reflexivity].
-  - split; [constructor; reflexivity|]. split; [reflexivity|]. split; [apply (AddsT_sched (set_wd st (mkwd r false)))|reflexivity].
+  - split; [constructor; reflexivity|]. split; [reflexivity|]. split; [apply (AddsT_sched (set_wd st (mkwd r (tl (wd_stamps (l_wd st))) (hd 0%Q (wd_stamps (l_wd st))) false)))|reflexivity].
 Qed.
 
 Lemma wa_get_descr st :
@@ -213,7 +215,7 @@ Inductive Tr (st : lstate) (a : aentry) (rest : list aentry) (st' : lstate) : Pr
     l_now st' = ae_time a -> l_snd st' = norm_sender s' -> l_sink st' = l_sink st -> l_n2 st' = l_n2 st ->
     l_slog st' = mkslog (ae_time a) e (txs o) (norm_sender s') :: l_slog st ->
     l_n1 st' = (l_n1 st + k)%nat ->
-    l_wd st' = mkwd (wd_items (l_wd st) ++ kp) (wd_waiting (l_wd st)) ->
+    l_wd st' = wd_app (l_wd st) kp (ae_time a) ->
     (if isack then nwa = fst (getA_eff (ae_time a) (l_wa st)) /\ l_wa st' = snd (getA_eff (ae_time a) (l_wa st))
      else nwa = [] /\ l_wa st' = l_wa st) ->
     AddsT rest (l_agenda st') ((nw ++ extra_news (ae_time a) (l_snd st) s' e) ++ nwa) ->
@@ -242,16 +244,16 @@ Inductive Tr (st : lstate) (a : aentry) (rest : list aentry) (st' : lstate) : Pr
     keep (popped st a rest) st' -> l_wd st' = l_wd st ->
     l_wa st' = snd (getA_eff (ae_time a) (l_wa st)) ->
     AddsT rest (l_agenda st') (fst (getA_eff (ae_time a) (l_wa st))) -> Tr st a rest st'
-| tr_waitD id tm ct :
-    ae_ev a = AWireGetD id -> pkt_get id (l_pkt st) = Some (tm, ct) -> Qltb (ae_time a - ct) d = true ->
+| tr_waitD id :
+    ae_ev a = AWireGetD id -> Qltb (ae_time a - wd_entered (l_wd st)) d = true ->
     keep (popped st a rest) st' -> l_wd st' = l_wd st -> l_wa st' = l_wa st ->
-    AddsT rest (l_agenda st') [(nq (ae_time a + (d - (ae_time a - ct))), AWireOutD id)] -> Tr st a rest st'
+    AddsT rest (l_agenda st') [(nq (ae_time a + (d - (ae_time a - wd_entered (l_wd st)))), AWireOutD id)] -> Tr st a rest st'
 | tr_waitA ackno pid tm ct :
     ae_ev a = AWireGetA ackno pid tm ct -> Qltb (ae_time a - ct) d = true ->
     keep (popped st a rest) st' -> l_wd st' = l_wd st -> l_wa st' = l_wa st ->
     AddsT rest (l_agenda st') [(nq (ae_time a + (d - (ae_time a - ct))), AWireOutA ackno pid tm ct)] -> Tr st a rest st'
 | tr_deliver id tm ct :
-    (ae_ev a = AWireOutD id \/ (ae_ev a = AWireGetD id /\ Qltb (ae_time a - ct) d = false)) ->
+    (ae_ev a = AWireOutD id \/ (ae_ev a = AWireGetD id /\ Qltb (ae_time a - wd_entered (l_wd st)) d = false)) ->
     pkt_get id (l_pkt st) = Some (tm, ct) ->
     l_now st' = ae_time a -> l_snd st' = l_snd st -> l_pkt st' = l_pkt st -> l_n1 st' = l_n1 st -> l_slog st' = l_slog st ->
     l_sink st' = sink_step true (l_sink st) (id, mss cfg) -> l_n2 st' = S (l_n2 st) ->
@@ -310,7 +312,7 @@ Proof.
     - eapply (tr_sender st a rest _ e false s' o nw kp k []); eauto.
       rewrite app_nil_r. exact D9. }
   assert (DL : forall id tm ct st1,
-             (ae_ev a = AWireOutD id \/ (ae_ev a = AWireGetD id /\ Qltb (ae_time a - ct) d = false)) ->
+             (ae_ev a = AWireOutD id \/ (ae_ev a = AWireGetD id /\ Qltb (ae_time a - wd_entered (l_wd st)) d = false)) ->
              pkt_get id (l_pkt pst) = Some (tm, ct) -> deliver_data lc pst id = inl st1 -> Tr st a rest (wd_get st1)).
   { intros id tm ct st1 Hev Ep D.
     destruct (deliver_data_descr pst id tm ct st1 Ep D) as (D1&D2&D3&D4&D5&D6&D7&D8&D9).
@@ -347,8 +349,8 @@ Proof.
       * destruct (wd_get_descr pst) as (G1 & G2 & G3 & G4). apply tr_getD; auto.
       * apply tr_noop; try reflexivity; [|apply keep_refl]. rewrite Eev. exact Ew.
   - destruct (pkt_get id (l_pkt pst)) as [[tm ct]|] eqn:Ep; [|discriminate].
-    destruct (Qltb (l_now pst - ct) d) eqn:Eq.
-    + injection H as <-. eapply (tr_waitD st a rest _ id tm ct); eauto; try reflexivity; [apply sched_keep|apply (AddsT_sched pst)].
+    destruct (Qltb (l_now pst - wd_entered (l_wd pst)) d) eqn:Eq.
+    + injection H as <-. eapply (tr_waitD st a rest _ id); eauto; try reflexivity; [apply sched_keep|apply (AddsT_sched pst)].
     + destruct (deliver_data lc pst id) as [st1|] eqn:D; cbn [bind] in H; [|discriminate]. injection H as <-.
       eapply DL; eauto.
   - destruct (pkt_get id (l_pkt pst)) as [[tm ct]|] eqn:Ep; [|unfold deliver_data in H; rewrite Ep in H; discriminate].
@@ -444,12 +446,16 @@ Record WA (now : Q) (ag : list aentry) (w : wireA) : Prop := {
   wa_sorted : sortedQ (map a_ct (wa_items w));
   wa_held_le : forall a c, In a ag -> ackct (ae_ev a) = Some c -> Forall (fun r => (c <= a_ct r)%Q) (wa_items w)
 }.
+(* the entry instants kept by the data wire (its queue, and the one its process holds) are in the past *)
+Definition Wst (now : Q) (w : wireD) : Prop :=
+  (wd_entered w <= now)%Q /\ Forall (fun t => (t <= now)%Q) (wd_stamps w).
 Record LInvW (st : lstate) : Prop := {
   w_now : (0 <= l_now st)%Q;
   w_pkt : pkt_ok (l_now st) (l_pkt st);
   w_ent : Forall (fun a => entry_w (l_now st) (ae_time a) (ae_ev a)) (l_agenda st);
   w_D : WD (l_agenda st) (l_wd st);
-  w_A : WA (l_now st) (l_agenda st) (l_wa st)
+  w_A : WA (l_now st) (l_agenda st) (l_wa st);
+  w_st : Wst (l_now st) (l_wd st)
 }.
 
 Lemma pkt_ok_mono now now' m : (now <= now')%Q -> pkt_ok now m -> pkt_ok now' m.
@@ -539,15 +545,15 @@ Proof.
 Qed.
 
 (* a sender event appends segments to the store, with a put callback *)
-Lemma WD_1 a rest ag' news w kp :
+Lemma WD_1 a rest ag' news w kp t :
   WD (a :: rest) w -> AddsT rest ag' news ->
   is_holdD (ae_ev a) = false -> is_initD (ae_ev a) = false -> is_putD (ae_ev a) = false ->
   ncount is_holdD news = O -> ncount is_initD news = O -> (kp <> [] -> (1 <= ncount is_putD news)%nat) ->
-  WD ag' (mkwd (wd_items w ++ kp) (wd_waiting w)).
+  WD ag' (wd_app w kp t).
 Proof.
   intros [cD wD] HA E1 E2 E3 C1 C2 C3. repeat rewrite acount_cons in cD. repeat rewrite acount_cons in wD.
   rewrite E1, E2 in cD. rewrite E1, E2, E3 in wD. cbn [b2n] in *.
-  constructor; cbn [wd_items wd_waiting]; repeat rewrite (AddsT_acount _ _ _ _ HA); [lia|].
+  constructor; unfold wd_app; cbn [wd_items wd_waiting]; repeat rewrite (AddsT_acount _ _ _ _ HA); [lia|].
   intros H0 Hne. destruct (wd_items w) as [|x l] eqn:Ei.
   - cbn [app] in Hne. specialize (C3 Hne). lia.
   - assert (Hh : (0 + acount is_holdD rest)%nat = O) by lia. specialize (wD Hh ltac:(discriminate)). lia.
@@ -743,6 +749,22 @@ Lemma ev_sender_roles st tau ev e isack : ev_sender lc st tau ev e isack ->
   is_holdA ev = isack.
 Proof. destruct 1; repeat split. Qed.
 
+Lemma Wst_mono now tau w : (now <= tau)%Q -> Wst now w -> Wst tau w.
+Proof. intros H [A B]. split; [lra|]. eapply Forall_impl; [|exact B]. intros t Ht. cbn beta in Ht. lra. Qed.
+
+Lemma Wst_app tau w kp : Wst tau w -> Wst tau (wd_app w kp tau).
+Proof.
+  intros [A B]. split; [exact A|]. unfold wd_app. cbn [wd_stamps]. apply Forall_app. split; [exact B|].
+  apply Forall_forall. intros t Ht. apply in_map_iff in Ht as (j & <- & _). apply Qle_refl.
+Qed.
+
+Lemma Wst_get tau w : (0 <= tau)%Q -> Wst tau w -> Wst tau (snd (getD_eff tau w)).
+Proof.
+  intros H0 [A B]. unfold getD_eff. destruct (wd_items w); cbn [snd]; [split; assumption|].
+  destruct (wd_stamps w) as [|t0 l0]; cbn [hd tl wd_entered wd_stamps]; [split; [exact H0|constructor]|].
+  inversion B; subst. split; assumption.
+Qed.
+
 (* THE TIMING / CONTROL INVARIANT IS PRESERVED by every agenda step *)
 Lemma LInvW_step st a rest st' :
   LInvA lc st None -> LInvW lc st -> l_agenda st = a :: rest -> Tr lc st a rest st' -> LInvW lc st'.
@@ -751,8 +773,9 @@ Proof.
   assert (Hn : (l_now st <= ae_time a)%Q) by (inversion Tf; assumption).
   assert (Hrest : forall b, In b rest -> (ae_time a <= ae_time b)%Q) by (intros b Hb; eapply asorted_head; eauto).
   assert (Hall : forall b, In b (a :: rest) -> (ae_time a <= ae_time b)%Q) by (intros b [<-|Hb]; [apply Qle_refl|auto]).
-  destruct W as [W0 Wp We WDs WAs]. rewrite E in We, WDs, WAs.
+  destruct W as [W0 Wp We WDs WAs Wst0]. rewrite E in We, WDs, WAs.
   assert (H0 : (0 <= ae_time a)%Q) by lra.
+  assert (WstT : Wst (ae_time a) (l_wd st)) by exact (Wst_mono _ _ _ Hn Wst0).
   assert (Pk : pkt_ok (ae_time a) (l_pkt st)) by exact (pkt_ok_mono _ _ _ Hn Wp).
   assert (EntR : Forall (fun b => entry_w lc (ae_time a) (ae_time b) (ae_ev b)) rest) by exact (ent_adv _ _ _ _ We Hn Hrest).
   assert (WAt : WA lc (ae_time a) (a :: rest) (l_wa st)).
@@ -762,7 +785,7 @@ Proof.
     destruct (ae_ev b); cbn [ackct] in Hc; try discriminate; injection Hc as <-; cbn [entry_w] in We; lra. }
   destruct HT as [e isack s' o nw kp k nwa Hev Hstep Ho Hnow Hsnd Hsink Hn2 Hslog Hn1 Hwd Hif HA' Hkp Hkeep Hpkt
                  | id r Hev Hfind Hk Hwd Hwa HA' | Hev Hk Hwd Hwa Hag | Hev Hk Hwa Hwd HA' | Hev Hk Hwd Hwa HA'
-                 | id tm ct Hev Hp Hq Hk Hwd Hwa HA' | ackno pid tm ct Hev Hq Hk Hwd Hwa HA'
+                 | id Hev Hq Hk Hwd Hwa HA' | ackno pid tm ct Hev Hq Hk Hwd Hwa HA'
                  | id tm ct Hev Hp Hnow Hsnd Hpkt Hn1 Hslog Hsink Hn2 Hwd Hif].
   - (* a sender event *)
     destruct (ev_sender_roles _ _ _ _ _ Hev) as (R1 & R2 & R3 & R4 & R5 & R6).
@@ -792,6 +815,7 @@ Proof.
         -- rewrite app_nil_r, (Cn _ wire_pred_initA eq_refl), R4. reflexivity.
         -- rewrite R5. discriminate.
         -- intros x c Hx Hc. rewrite app_nil_r in Hx. rewrite (sender_news_noack _ _ _ _ _ _ _ _ _ x Ho Hx) in Hc. discriminate.
+    + rewrite Hwd. apply Wst_app. exact WstT.
   - (* Timer Initialize of an armed timer *)
     destruct Hk as [k1 k2 k3 k4 k5 k6 k7]. unfold popped in *; lproj.
     constructor; rewrite ?k1, ?k4, ?Hwd, ?Hwa; auto.
@@ -819,6 +843,7 @@ Proof.
       * destruct Hev as [->|[-> _]]; discriminate.
       * intros x c Hx Hc. exfalso. unfold getD_eff in Hx. destruct (wd_items (l_wd st)); cbn [fst] in Hx; [destruct Hx|].
         destruct Hx as [<-|[]]. discriminate.
+    + apply Wst_get; assumption.
   - (* the ACK wire asks its store *)
     destruct Hk as [k1 k2 k3 k4 k5 k6 k7]. unfold popped in *; lproj.
     constructor; rewrite ?k1, ?k4, ?Hwd, ?Hwa; auto.
@@ -833,7 +858,7 @@ Proof.
     destruct Hk as [k1 k2 k3 k4 k5 k6 k7]. unfold popped in *; lproj.
     constructor; rewrite ?k1, ?k4, ?Hwd, ?Hwa; auto.
     + eapply AddsT_ent; [exact HA'|exact EntR|]. constructor; [|constructor]. cbn [fst snd entry_w].
-      rewrite nq_eq. destruct (Pk id tm ct Hp) as [_ Hc]. lra.
+      rewrite nq_eq. destruct WstT as [Hc _]. lra.
     + eapply WD_0; [exact WDs|exact HA'| | |]; rewrite Hev; cbn; try reflexivity. discriminate.
     + eapply WA_0; [exact WAt|exact HA'| | | |]; rewrite Hev; cbn; try reflexivity; try discriminate.
       intros x c [<-|[]]; discriminate.
@@ -870,6 +895,7 @@ Proof.
         -- rewrite ncount_cons. cbn [snd is_putA b2n]. lia.
         -- intros x [<-|Hx]; [reflexivity|]. unfold getD_eff in Hx. destruct (wd_items (l_wd st)); cbn [fst] in Hx; [destruct Hx|].
            destruct Hx as [<-|[]]. reflexivity.
+    + rewrite Hwd. apply Wst_get; assumption.
 Qed.
 End Wstep.
 
@@ -882,6 +908,7 @@ Proof.
   - constructor; cbn; [reflexivity|]. intros _ H. contradiction.
   - constructor; cbn; auto; try (intros _ H; contradiction);
       try (intros a c [<-|[<-|[<-|[]]]]; discriminate).
+  - split; [apply Qle_refl|constructor].
 Qed.
 
 Lemma reach_W lc cw ss rtt0 orc st :
